@@ -17,7 +17,7 @@ func init() {
 		ID:          "C14",
 		Run:         runC14,
 		Explanation: "Decides the structural clauses of all-or-nothing management operations: (R1) every orchestrator method that opens a store transaction registers the discard right after it, registers an in-memory inverse after every successful service mutation before the next fallible step, skips the rollback only on the commit's success edge, and runs it by defer; the inverse of an Update re-applies values captured BEFORE the mutation (it never reads the live instance at rollback time); (R2) every mutating service call from the orchestrator is dominated by the provisioned-by-API edge and the not-running edge; (R4) the services publish a created instance in their maps only after the store write succeeded and remove it only after the store delete succeeded; (R6) the pipeline name index follows renames (the old name — read before the config is replaced — is freed, the new one reserved).",
-		NotDecided:  []string{"equality of memory and store after arbitrary histories", "in-place mutation of a loaded instance before store.Set in the services (a single failing Set outside an orchestrator transaction is not rolled back there)", "reference symmetry beyond the paired Add/Remove inverses"},
+		NotDecided:  []string{"equality of memory and store after arbitrary histories", "reference symmetry beyond the paired Add/Remove inverses"},
 		Assumptions: []string{"rollback.R executes appended functions in reverse order unless Skip was called", "the store transaction discards writes that were not committed"},
 	})
 }
@@ -587,6 +587,7 @@ func c14R4(c *Ctx) {
 }
 
 func c14R6(c *Ctx) {
+	c14R8(c)
 	c14R6As(c, c.R.Rule("R6", "K6 name index follows renames: pipeline.Service.Update frees the OLD name (read before the config is replaced) and reserves the new one", 2))
 }
 
@@ -718,4 +719,122 @@ func livePersisted(c *Ctx, r string) {
 	if n == 0 {
 		c.R.Fail(r, "service methods that fetch and persist an instance", "", "none found")
 	}
+}
+
+// c14R8: "leaves everything exactly as it was" for a failed DELETE (F25). The orchestrators undo a delete by calling
+// the service's Create / Add… again; that builds a NEW instance and APPENDS the id. The rollback closure therefore
+// has to put back what Create's parameters do not carry (a connector's position!) and the parent's id list as it was.
+func c14R8(c *Ctx) {
+	r := c.R.Rule("R8", "K8/K6 a rolled-back delete restores the deleted instance: in the Delete methods' rollback closures every exported instance field that the re-creating Create call does not take as a parameter is assigned from the deleted instance (connector: State, LastActiveConfig, CreatedAt, UpdatedAt; processor: CreatedAt, UpdatedAt), and after the re-adding Add… call the parent's id list is assigned a copy taken before the Remove… call (the id gets its old place back)", 11)
+	for _, t := range []struct {
+		orch, svc, rel string
+		covered        map[string]string // instance field → why the rollback does not have to assign it
+	}{
+		{"ConnectorOrchestrator", "connectors", pConn, map[string]string{"ID": "Create parameter", "Type": "Create parameter", "Plugin": "Create parameter", "PipelineID": "Create parameter", "Config": "Create parameter", "ProvisionedBy": "Create parameter", "ProcessorIDs": "Delete refuses a connector that still has processors attached (len(conn.ProcessorIDs) != 0), so the list is empty"}},
+		{"ProcessorOrchestrator", "processors", pProc, map[string]string{"ID": "Create parameter", "Plugin": "Create parameter", "Parent": "Create parameter", "Config": "Create parameter", "ProvisionedBy": "Create parameter", "Condition": "Create parameter"}},
+	} {
+		fn := c.SSA(r, pOrch, "(*"+t.orch+").Delete")
+		inst := c.W.LookupType(t.rel, "Instance")
+		if fn == nil || inst == nil {
+			c.R.Unresolved(r, t.orch+".Delete / "+t.rel+".Instance")
+			continue
+		}
+		st := inst.Underlying().(*types.Struct)
+		nCreate := 0
+		for _, lit := range kit.WithAnon(fn) {
+			if lit == fn {
+				continue
+			}
+			for _, b := range lit.Blocks {
+				for _, in := range b.Instrs {
+					ci, ok := in.(ssa.CallInstruction)
+					if !ok {
+						continue
+					}
+					svc, m, ok := svcCall(ci)
+					if !ok {
+						continue
+					}
+					switch {
+					case svc == t.svc && m == "Create":
+						nCreate++
+						for i := 0; i < st.NumFields(); i++ {
+							f := st.Field(i)
+							if !f.Exported() || f.Embedded() {
+								continue
+							}
+							if _, ok := t.covered[f.Name()]; ok {
+								continue
+							}
+							restored := false
+							for _, s2 := range kit.FieldStores(lit, f) {
+								if kit.IsFieldLoad(kit.Unwrap(s2.Val), f) && kit.InstrDominates(ci, s2) {
+									restored = true
+								}
+							}
+							c.R.Check(restored, r, t.orch+".Delete rollback: "+t.rel+".Instance."+f.Name()+" restored", c.Pos(ci.Pos()), "assigned from the deleted instance", "the rollback of a failed delete re-creates the "+t.svc[:len(t.svc)-1]+" through Create, which does not carry "+f.Name()+", and does not put the deleted instance's "+f.Name()+" back: the API call fails but the live instance has lost it (for a connector's State: the source position — the next persist of that connector writes the position-less instance to the store)", true)
+						}
+					case strings.HasPrefix(m, "Add") && (strings.HasSuffix(m, "Connector") || strings.HasSuffix(m, "Processor")):
+						// the parent's list: ConnectorIDs for AddConnector, ProcessorIDs for AddProcessor
+						lname := strings.TrimPrefix(m, "Add") + "IDs"
+						ok2 := false
+						for _, s2 := range storesToFieldNamed(lit, lname) {
+							if !kit.InstrDominates(ci, s2) {
+								continue
+							}
+							// value: a copy taken in the enclosing method before the Remove… call
+							v := kit.Unwrap(s2.Val)
+							if u, isU := v.(*ssa.UnOp); isU {
+								if fv, isFV := u.X.(*ssa.FreeVar); isFV {
+									if cell := kit.ResolveFreeVar(fv); cell != nil {
+										for _, use := range kit.CellUses(cell) {
+											if st2, isSt := use.Instr.(*ssa.Store); isSt && st2.Addr == cell && use.Fn == fn {
+												v = kit.Unwrap(st2.Val)
+											}
+										}
+									}
+								}
+							}
+							cl, isCall := v.(*ssa.Call)
+							if !isCall {
+								continue
+							}
+							if f := kit.CalleeOf(cl.Common()); f == nil || f.Name() != "Clone" || f.Pkg() == nil || f.Pkg().Path() != "slices" {
+								continue
+							}
+							if !fieldNamed(cl.Call.Args[0], lname) {
+								continue
+							}
+							// before the matching Remove… call
+							for _, b2 := range fn.Blocks {
+								for _, in2 := range b2.Instrs {
+									if c2, isC := in2.(ssa.CallInstruction); isC {
+										if svc2, m2, ok3 := svcCall(c2); ok3 && svc2 == svc && m2 == "Remove"+strings.TrimPrefix(m, "Add") && kit.InstrDominates(cl, c2) {
+											ok2 = true
+										}
+									}
+								}
+							}
+						}
+						c.R.Check(ok2, r, t.orch+".Delete rollback: "+svc+"."+m+" puts the id back at its old place", c.Pos(ci.Pos()), lname+" = copy taken before Remove…", "the rollback re-adds the id with "+m+", which APPENDS it, and does not restore the parent's "+lname+" as it was before the delete: a failed delete of a non-last element changes the order in memory (for processors: the processing order of the pipeline) while the store keeps the old one", true)
+					}
+				}
+			}
+		}
+		c.R.Check(nCreate == 1, r, t.orch+".Delete: one re-creating rollback step", c.Pos(fn.Pos()), "found", "expected exactly one rollback closure calling "+t.svc+".Create", true)
+	}
+}
+
+func storesToFieldNamed(fn *ssa.Function, name string) []*ssa.Store {
+	var out []*ssa.Store
+	for _, b := range fn.Blocks {
+		for _, in := range b.Instrs {
+			if st, ok := in.(*ssa.Store); ok {
+				if f := kit.FieldOf(st.Addr); f != nil && f.Name() == name {
+					out = append(out, st)
+				}
+			}
+		}
+	}
+	return out
 }
